@@ -20,6 +20,49 @@ CLAIMED = {
    note=('Round-off closure only in constant-property worlds; wall flux relies on the '
          'steady-slab duct solution (C11) as the measuring instrument; user-power inputs only.'),
    technique='deterministic simulation: step driver with per-tick energy-ledger oracle under seeded schedules and tick placement'),
+ 'C02': dict(
+   category='exploration',
+   text=('Seeded search over gap-coupled cores (1..19 positions, holes, periphery, mixed '
+         'meshes, double ducts, low-fidelity types) under seeded per-tick permutations of '
+         'the assembly updates: per (assembly, tick) the heat leaving through the outer '
+         'duct computed on the assembly mesh from what it was given and produced (and by '
+         'Fourier\'s law on the wall) must equal the gap-side credit; per tick the gap '
+         'enthalpy rise must equal the credits; per sweep assemblies+gap enthalpy rise '
+         'must equal the power delivered; adiabatic worlds credit nothing.'),
+   design_ref='DESIGN.md section 3, C02',
+   note='Constant-property worlds; six-node/stagnant-bypass/conv_approx worlds excluded from the whole-sweep balance; user-power inputs only.',
+   technique='deterministic simulation: multi-party exchange ledger per tick under seeded assembly schedules'),
+ 'C03': dict(
+   category='exploration',
+   text=('Seeded search over user-power worlds and tick schedules (planes on/next to '
+         'power-cell, bundle and region bounds; bundle bounds aligned or strictly inside a '
+         'power cell): assigned power vs analytic integral of the CSV polynomials, core '
+         'normalisation/scaling, exactly-once in-order consumption of the per-tick power '
+         'under any assembly order, delivered == assigned after the sweep, and a scaling '
+         'twin in constant worlds.'),
+   design_ref='DESIGN.md section 3, C03',
+   note='User-power CSV path only (VARPOW/binary flux files unavailable in this sandbox).',
+   technique='deterministic simulation: power ledger over seeded tick schedules + scaling twin'),
+ 'C14': dict(
+   category='exploration',
+   text=('Seeded search over worlds with spacer grids, gravity and multi-region assemblies '
+         'on two tick schedules per world (planes exactly on grids incl. dyadic coordinates, '
+         'a hair before/after, different step): non-negative increments, additivity, closed '
+         'forms per region/component (constant worlds), every grid crossed by exactly one '
+         'loss increment in the recorded history, equality between the two schedules.'),
+   design_ref='DESIGN.md section 3, C14',
+   note='Closed forms asserted in constant-property worlds only; user-power inputs only.',
+   technique='deterministic simulation: tick scheduler vs grid timers (exactly-once) + closed-form ledger + step twin'),
+ 'C15': dict(
+   category='exploration',
+   text=('Seeded search over worlds whose peaks fall at the bottom/middle/top/ties and '
+         'whose duct count and mesh change along the height, with pin/fuel models, under '
+         'seeded assembly schedules: an independent running fold over the per-tick fields '
+         'is compared with Assembly._peak (value, height, radial pin profile) and with the '
+         'numbers printed by the coolant and duct summary tables (parsed back).'),
+   design_ref='DESIGN.md section 3, C15',
+   note='Printed numbers compared to printed precision; user-power inputs only.',
+   technique='deterministic simulation: independent fold over the recorded step history'),
  'C06': dict(
    category='exploration',
    text=('Seeded search over worlds and schedules: every generated multi-assembly '
